@@ -634,6 +634,7 @@ func rulesCosmosSearch(r *Run, rule string) {
 	if !ok {
 		return
 	}
+	paths = OwnOnly(paths)
 	probs := map[string]bool{}
 	nT := 0
 	for i := range paths {
